@@ -24,7 +24,8 @@ CONSTANTS Block,       \* universe of block ids (Genesis not included)
           MaxRound,    \* rounds 1..MaxRound exist as Round objects
           PerRound,    \* at most this many blocks per round
           Ahead,       \* config.GetLFBTicketAhead()
-          Confirm      \* confirmations needed before a block is finalized (3 in the code)
+          Confirm,     \* confirmations needed before a block is finalized (3 in the code)
+          FetchOK      \* environment: can a block that is not marked notarized be fetched from peers?
 
 VARIABLES par,   \* parent link of every known block
           nota,  \* blocks that are in their round's notarized list
@@ -84,7 +85,7 @@ FinForward(r) ==
   /\ Forwardable(r)
   /\ LET bc == BackChain(par, Rnd, Computed(r), lfb, Ahead, <<>>) IN
      /\ bc[1]
-     /\ LET res == FinBlocks(par, Rnd, Reverse(bc[2]), r, Confirm, lfb, rfin) IN
+     /\ LET res == FinBlocks(par, Rnd, nota, FetchOK, Reverse(bc[2]), r, Confirm, lfb, rfin) IN
         /\ lfb' = res[1] /\ rfin' = res[2]
   /\ UNCHANGED <<par, nota>>
 
